@@ -3,6 +3,7 @@ package main
 import (
 	"fmt"
 	"go/types"
+	"strings"
 
 	"golang.org/x/tools/go/ssa"
 )
@@ -104,18 +105,30 @@ func ruleInitBeforePublish(c *Ctx, rule string) {
 				obj = w.resolveLoad(obj)
 				n++
 				c.Anchor(rule, name)
-				// initialising instructions in this function for this object
-				var initInstrs []ssa.Instruction
-				w.eachInstr(fn, func(in2 ssa.Instruction) {
+				// initialising instructions for this object
+				isInit := func(in2 ssa.Instruction) bool {
 					switch y := in2.(type) {
 					case *ssa.Store:
 						if fa, ok := y.Addr.(*ssa.FieldAddr); ok && fieldOf(fa) == timer && !isNilConst(y.Val) && (w.sameKey(w.resolveLoad(fa.X), obj) || w.sameKey(fa.X, obj)) {
-							initInstrs = append(initInstrs, in2)
+							return true
 						}
 					case *ssa.Call:
 						if cal := y.Call.StaticCallee(); cal != nil && inits[cal] && (w.sameKey(w.resolveLoad(y.Call.Args[0]), obj) || w.sameKey(y.Call.Args[0], obj)) {
-							initInstrs = append(initInstrs, in2)
+							return true
 						}
+					}
+					return false
+				}
+				// the publication may sit in a function literal or helper of the function that
+				// arms the timer: an initialisation that dominates it there is as good
+				if w.domHit(in, isInit) {
+					c.OK(rule, fname(fn), name, w.instrPos(in), "the timer is assigned before the publishing store on every path")
+					return
+				}
+				var initInstrs []ssa.Instruction
+				w.eachInstr(fn, func(in2 ssa.Instruction) {
+					if isInit(in2) {
+						initInstrs = append(initInstrs, in2)
 					}
 				})
 				if len(initInstrs) == 0 {
@@ -216,8 +229,8 @@ func ruleNoGuardedAlias(c *Ctx, rule string) {
 							case ssa.CallInstruction:
 								cc := x.Common()
 								if b, isB := cc.Value.(*ssa.Builtin); isB {
-									switch b.Name() {
-									case "len", "cap", "delete", "copy":
+									switch nm(b) {
+									case "len", "cap", "delete", "copy", "clear":
 										continue
 									case "append":
 										if call, isC := x.(*ssa.Call); isC {
@@ -226,6 +239,55 @@ func ruleNoGuardedAlias(c *Ctx, rule string) {
 											}
 											if cc.Args[0] == v && depth < 3 {
 												check(call, depth+1) // result aliases the field's array
+												continue
+											}
+										}
+									}
+								}
+								if call, isC := x.(*ssa.Call); isC {
+									if cal := cc.StaticCallee(); cal != nil {
+										// a module function called synchronously runs inside this critical
+										// section: its use of the parameter is held to the same rule
+										if w.IsMod[cal] && len(cal.Blocks) > 0 && depth < 3 {
+											followed := false
+											for i, a := range cc.Args {
+												if a == v && i < len(cal.Params) {
+													check(cal.Params[i], depth+1)
+													followed = true
+												}
+											}
+											if followed {
+												continue
+											}
+										}
+										// an iterator over the storage that is drained on the spot
+										base := cal.String()
+										if k := strings.IndexByte(base, '['); k > 0 {
+											base = base[:k]
+										}
+										switch base {
+										case "maps.Values", "maps.Keys", "maps.All", "slices.Values", "slices.All":
+											drained := call.Referrers() != nil && len(*call.Referrers()) > 0
+											for _, r2 := range *call.Referrers() {
+												c2, ok2 := r2.(*ssa.Call)
+												if !ok2 || c2.Call.StaticCallee() == nil {
+													if _, isDbg := r2.(*ssa.DebugRef); isDbg {
+														continue
+													}
+													drained = false
+													continue
+												}
+												b2 := c2.Call.StaticCallee().String()
+												if k := strings.IndexByte(b2, '['); k > 0 {
+													b2 = b2[:k]
+												}
+												switch b2 {
+												case "slices.AppendSeq", "slices.Collect", "slices.Sorted", "slices.SortedFunc":
+												default:
+													drained = false
+												}
+											}
+											if drained {
 												continue
 											}
 										}
@@ -290,7 +352,7 @@ func ruleCloseOnce(c *Ctx, rule string) {
 			switch {
 			case guarded:
 				c.OK(rule, fname(fn), "close "+f.Name(), w.instrPos(in), "closed-test dominates the close (locks held: {"+held.str()+"})")
-			case f.Name() == "resultCh":
+			case nm(f) == "resultCh":
 				// Transaction.Close: only for map-resident transactions, under mutexTrMap (C12.6)
 				if holds(held, "turn.Client.mutexTrMap", true) {
 					c.OK(rule, fname(fn), "close "+f.Name(), w.instrPos(in), "closed only for transactions still in the table, with Client.mutexTrMap held on every call path ({"+held.str()+"}): completions (WriteResult) take the same lock around find+delete")
